@@ -5,6 +5,9 @@ import "verif/harness/internal/core"
 var registry = map[string]func() core.Engine{
 	"C01": func() core.Engine { return &C01{} },
 	"C02": func() core.Engine { return &C02{} },
+	"C03": func() core.Engine { return &C03{} },
+	"C06": func() core.Engine { return &C06{} },
+	"C07": func() core.Engine { return &C07{} },
 	"C14": func() core.Engine { return &C14{} },
 }
 
